@@ -182,5 +182,52 @@ def _bools(e):
 _units_c17 = units
 
 
+class MonotonicityUnit:
+    """bounded stand-in (never counted as proved) for the duplication clause: real training entry point,
+    small exhaustive scope + seeded random corpora (replay/bounded_c17.py).  The unbounded argument is the
+    textbook-NB contract of the estimator (C16 obligations, also listed under C17) plus the convexity
+    lemma of DESIGN (paper step, assumption A-analysis)."""
+    kind = "bounded"
+    name = "nb_scorer.train_naive_bayes+pipeline[bounded duplication]"
+    qualnames = ["nb_scorer.train_naive_bayes", "pipeline.CTParsePipeline.fit", "pipeline.CTParsePipeline.predict_log_proba",
+                 "nb_estimator.MultinomialNaiveBayes.fit", "nb_estimator.MultinomialNaiveBayes._construct_log_likelihood",
+                 "nb_estimator.MultinomialNaiveBayes._construct_log_class_prior",
+                 "nb_estimator.MultinomialNaiveBayes.predict_log_probability", "count_vectorizer.CountVectorizer.fit_transform"]
+    props = {"C17"}
+    cost = 4
+
+    def sha(self, world):
+        return "+".join(world.sha(world.func(q)) for q in self.qualnames[:4])
+
+    def run(self, world, prop, tier):
+        import json
+        import os
+        import subprocess
+        from pyvc.vcgen import Obligation
+        from pyvc import world as W
+        env = dict(os.environ, PYTHONPATH=world.repo + os.pathsep + W.VERIF, PYTHONDONTWRITEBYTECODE="1")
+        seed = os.environ.get("VERIF_SEED", "0") or "0"
+        p = subprocess.run([W.VENV_PY, "-W", "ignore", os.path.join(W.VERIF, "replay", "bounded_c17.py"), tier, seed],
+                           cwd=world.repo, env=env, capture_output=True, text=True, timeout=3000)
+        o = Obligation(self.name, "another-copy-of-a-positive-example-never-lowers-its-score", ["C17"])
+        o.kind = "bounded"
+        o.bounded = True
+        o.paths = 1
+        info = {"paths": 1}
+        try:
+            r = json.loads(p.stdout.strip().splitlines()[-1])
+        except Exception:
+            o.status, o.detail = "unsupported", "bounded check crashed: " + (p.stderr or p.stdout)[-800:]
+            return [o], info
+        info["bounded"] = [{"what": self.name, "bound": r["bound"], "cases": r["cases"], "distinct": r["distinct"],
+                            "failures": len(r["bad"]), "props": ["C17"]}]
+        if r["bad"]:
+            o.status = "failed"
+            o.detail = "retraining with one more copy lowered the score: %s" % json.dumps(r["bad"][0])[:600]
+            o.cex = {"args": {"kind": "bounded", "examples": r["bad"]}}
+            o.confirmed_natively = True
+        return [o], info
+
+
 def units(world):  # noqa: F811
-    return _units_c17(world) + [run_corpus_unit(world)]
+    return _units_c17(world) + [run_corpus_unit(world), MonotonicityUnit()]
